@@ -417,11 +417,11 @@ func vLen(rng *rand.Rand, thorough bool) int {
 		switch x := rng.IntN(100); {
 		case x < 30:
 			return vBoundaries[rng.IntN(7)]
-		case x < 40:
+		case x < 35:
 			return vBoundaries[7+rng.IntN(4)]
-		case x < 85:
+		case x < 87:
 			return rng.IntN(300)
-		case x < 95:
+		case x < 97:
 			return 300 + rng.IntN(8000)
 		default:
 			return 300 + rng.IntN(70000)
